@@ -300,7 +300,30 @@ class ThreadAgent:
         self.sock.close()
 
 
-def run_async(main, script):
+HUNG = []      # threads whose event loop never came back
+
+
+def run_coro(coro, watchdog):
+    """asyncio.run(coro) in a thread; None when the loop is still running after `watchdog` seconds (frozen)"""
+    box = {}
+
+    def target():
+        try:
+            box["r"] = asyncio.run(coro)
+        except BaseException as ex:  # noqa: BLE001
+            box["e"] = ex
+    th = threading.Thread(target=target, daemon=True)
+    th.start()
+    th.join(watchdog)
+    if th.is_alive():
+        HUNG.append(th)
+        return None
+    if "e" in box:
+        raise box["e"]
+    return box["r"]
+
+
+def run_async(main, script, watchdog=15.0):
     """run `await main(port)` with a scripted agent living on the same event loop:
     script(datagram) -> list of datagrams. Returns (result-or-exception tuple, log of requests)."""
     log = []
@@ -328,7 +351,22 @@ def run_async(main, script):
         finally:
             transport.close()
 
-    return asyncio.run(runner()), log
+    # the client under test may freeze its event loop (a coroutine that spins without yielding): run the loop
+    # in a thread of its own and give up after `watchdog` seconds, reporting the hang as the outcome
+    box = {}
+
+    def target():
+        try:
+            box["r"] = asyncio.run(runner())
+        except BaseException as ex:  # noqa: BLE001
+            box["r"] = ("exc", type(ex).__name__, isinstance(ex, Exception))
+    th = threading.Thread(target=target, daemon=True)
+    th.start()
+    th.join(watchdog)
+    if th.is_alive():
+        HUNG.append(th)
+        return ("exc", "Hang", True), log
+    return box["r"], log
 
 
 def canon(v):
